@@ -1123,6 +1123,12 @@ def witness_cases():
                 "ext": {"progmod.py": {"imports": [], "stmts": [d, {"k": "mark", "obj": d["obj"], "marks": ["try_first"]}]}},
                 "ptasks": [{"src": "ext:progmod.py", "attr": "work", "fname": "work", "tag": d["tag"], "kind": "fn", "name": None,
                             "share": None, "marks": ["try_first"], "deco": False}]})
+    # former F35 (fix f1fcb9a): a task generator defines a child that cannot be collected (both priorities) next to a good one
+    n = g.obj()
+    out.append({"id": "w-f35", "dirs": [], "paths": [""], "ignore": [], "task_files": None, "files": {"task_m.py": {"imports": [], "stmts": [
+        {"k": "gen", "obj": n, "fname": "task_gen", "tag": n, "inner": [
+            {"fname": "task_x", "tag": g.obj(), "name": None, "id": None, "kwargs": None},
+            {"fname": "task_y", "tag": g.obj(), "name": None, "id": None, "kwargs": None, "fault": "mixed"}]}]}}})
     d = g.mkdef("helped", "helped", style="def")
     out.append({"id": "w-ok-leftover", "dirs": [], "paths": [""], "ignore": [], "task_files": None, "files": {
         "helper_a.py": {"imports": [], "stmts": [d, g.wrap(d["obj"])]},
